@@ -366,4 +366,25 @@ def selftest() -> int:
     r = tlc("Gen_Expander", "Gen_Expander_C05Q.cfg", workers=1)
     cuts = sum(1 for c in r.cases if any(a in ("<ERR:loop:", "<ERR:depth>") for a in c["out"]))
     print("cases with a predicted cut:", cuts, "of", len(r.cases))
-    return 0 if cuts > 5 else 1
+    # ladders: the demo of the deviation must fail in TLC; a fabricated observation "raised" on a ladder that the as-is
+    # design bounds must be rejected as a violation, on a ladder that it does not bound it must be attributed to the deviation
+    d = tlc("Gen_ExpanderDepth", "Demo_ExpanderDepth_unbounded.cfg", workers=1, check=False)
+    print("Demo_ExpanderDepth_unbounded violated:", bool(d.invariant_violated))
+    lc = d.cases or tlc("Gen_ExpanderDepth", "Gen_ExpanderDepth_quick.cfg", workers=1).cases
+    o = Outcome(PID, "selftest")
+    verdicts = []
+    for want_over in (False, True):
+        c = next(c for c in lc if c["asis_overrun"] == want_over and c["cls"] == "cut")
+        before = len(o.violations)
+        judge_ladder(o, c, {"src": ladder_text(c["segs"][0]), "out": None, "nout": None, "exc": "RecursionError('fabricated')", "stopped": False,
+                            "wall": 0.0, "cpu": 0.0, "msgs": []})
+        why = o.violations[-1]["why"] if len(o.violations) > before else "(known finding)"
+        verdicts.append((want_over, len(o.violations) > before, DEV_NESTING in why))
+        print("fabricated exception on", ladder_name(c), "->", "VIOLATION" if len(o.violations) > before else "KNOWN-FINDING", "| deviation named:", DEV_NESTING in why)
+    c = next(c for c in lc if c["cls"] == "cut")
+    before = len(o.violations)
+    judge_ladder(o, c, {"src": "x", "out": "<ERR:depth>", "nout": "<ERR:depth>", "exc": None, "stopped": False, "wall": 0.0, "cpu": 0.0, "msgs": []})
+    silent_cut = len(o.violations) > before
+    print("error element without a recorded error rejected:", silent_cut)
+    ok = cuts > 5 and d.invariant_violated and verdicts[0][1] and not verdicts[0][2] and (verdicts[1][2] or not verdicts[1][1]) and silent_cut
+    return 0 if ok else 1
